@@ -830,6 +830,16 @@ class Gen:
             c["props"] = [[k, rng.choice(PROP_VALUES)] for k in ks]
         return c
 
+    def mfmt_case(self):
+        """mapping.Unmarshal{Json,Yaml,Toml}{Bytes,Reader}: no conf layer, keys are matched exactly"""
+        rng = self.rng
+        depth = rng.choice([0, 1, 1, 2])
+        fields = self.gen_fields(depth, False, rng.randint(1, 4), allow_embed=rng.random() < 0.5)
+        if not fields:
+            fields = [F("a", P("int"))]
+        doc = self.obj(fields, False, False)
+        return {"kind": "mfmt", "type": fields, "doc": doc, "doc2": None, "env": None}
+
     def std_case(self):
         rng = self.rng
         depth = rng.choice([0, 1, 1, 2, self.maxdepth])
@@ -1398,6 +1408,11 @@ class C17(Property):
                    "doc": dm(("C17MyStr", ds("x"))), "doc2": None})
         cs.append({"kind": "load", "type": [E([F("DB", St(F("Host", P("string"))))]), F("db", St(F("Port", P("int"))))], "env": None,
                    "doc": dm(("DB", dm(("Host", ds("h")), ("PORT", di(1))))), "doc2": dm(("Db", dm(("HOST", ds("h")), ("port", di(1)))))})
+        # a map-typed field promoted onto a key that a struct already holds; two promoted structs sharing a member
+        cs.append({"kind": "load", "type": [F("Cfg", St(F("X", P("int")))), E([F("cfg", Mp(P("int")))])], "env": None,
+                   "doc": dm(("Cfg", dm(("X", di(1))))), "doc2": None})
+        cs.append({"kind": "load", "type": [E([F("DB", St(F("Host", P("string"))))]), F("db", St(F("HOST", P("int"))))], "env": None,
+                   "doc": dm(("DB", dm(("Host", ds("h"))))), "doc2": None})
         if fix_landed(FIX_ANON):
             cs.append({"kind": "shape", "type": [F("c17nodes", P("int")), ET("Nodes")], "env": None, "noload": False,
                        "doc": dm(("c17nodes", di(1))), "doc2": None})
@@ -1422,8 +1437,11 @@ class C17(Property):
         n_main = n - n_shape
         while len(cases) < n_main and tries < 20 * n:
             tries += 1
-            c = g.load_case() if rng.random() < 0.62 else g.std_case()
+            r = rng.random()
+            c = g.load_case() if r < 0.57 else (g.std_case() if r < 0.9 else g.mfmt_case())
             shapes = detect_shapes(c)
+            if shapes and c["kind"] == "mfmt":
+                continue
             if shapes:
                 # most instances of a registered deviation are left out; some are run, and must then be
                 # EXACTLY the registered deviation (known(): the model has to reproduce them)
@@ -1518,6 +1536,9 @@ class C17(Property):
                                             cob(obs.get("stdjson")))
         if case["kind"] == "bad":
             return "CaseBad %s %s" % (cfields(case["type"]), cob3(obs.get("load") or {}))
+        if case["kind"] == "mfmt":
+            return "CaseMFmt %s %s %s %s" % (cfields(case["type"]), cdoc(case["doc"]), cob3(obs.get("mbytes") or {}),
+                                            cob3(obs.get("mreaders") or {}))
         d2 = case.get("doc2")
         w = obs.get("white") or {}
         info = "None"
